@@ -270,7 +270,17 @@ func runBlockBase(sc *BlockCase, res *BlockResult) {
 			waitFor(func() bool { return reads() >= before+len(pkts) }, time.Second)
 			time.Sleep(2 * time.Millisecond)
 		}
-		if sc.L == "fromHandler" {
+		if sc.L == "otherInFlight" {
+			// Disconnect (the call under test) while another request waits for its acknowledgement
+			also = startCall(root, cli, sc.Also, 2)
+			if !waitFor(func() bool { return countWrites(rec, reqPkt[sc.Also]) >= 1 }, 2*time.Second) {
+				res.Note = "other request not written"
+				return
+			}
+			mkctx()
+			ret = startCall(cctx, cli, "disconnect", 1)
+			res.Steered = true
+		} else if sc.L == "fromHandler" {
 			ret = fromHandler
 			res.Steered = true
 		} else {
@@ -289,7 +299,7 @@ func runBlockBase(sc *BlockCase, res *BlockResult) {
 				}
 			}
 		}
-		if sc.Also != "" {
+		if sc.Also != "" && sc.L != "otherInFlight" {
 			also = startCall(root, cli, sc.Also, 2)
 			want := 1
 			if reqPkt[sc.Also] == reqPkt[sc.K] {
@@ -324,6 +334,14 @@ func runBlockBase(sc *BlockCase, res *BlockResult) {
 		t.PeerClose()
 	case "malformed":
 		t.SendRaw([]byte{0xF0, 0x00}, "reserved-type")
+	case "otherDisconnect":
+		// another goroutine ends the session gracefully while the call waits: the waiting call ends with an error
+		// (its acknowledgement did not come), Disconnect itself returns
+		go func() {
+			dctx, dcancel := context.WithTimeout(root, time.Second)
+			defer dcancel()
+			_ = cli.Disconnect(dctx)
+		}()
 	}
 	select {
 	case r := <-ret:
